@@ -162,7 +162,7 @@ def translate (t : Top) : Option Module :=
     (match Meta.translate raws with
      | .ok md =>
        if Core2.hasDup (c2.globals.map (·.name) ++ fs.map (·.name)) then none
-       else if (fs.flatMap funcNames).all (fun n => (c2.typedefs.map (·.name)).contains n) then some ⟨c2.typedefs, c2.globals, fs, md⟩
+       else if (t.funcs.flatMap funcNames).all (fun n => (c2.typedefs.map (·.name)).contains n) then some ⟨c2.typedefs, c2.globals, fs, md⟩
        else none
      | .error => none)
   | _, _ => none
